@@ -35,7 +35,8 @@ add('C13', 'exploration', 'history + reference model checked after every operati
     'For each generated point set all operation sequences up to length 3 (quick) / 5 (thorough) are executed on '
     'deep copies of the real Union; after every operation record lengths, volumes, may-split flags, point-set '
     'partition/conservation, minimum points, volume monotonicity, refused-op immutability and absence of '
-    'exceptions are checked against the reference list of point sets.',
+    'exceptions are checked against the reference list of point sets; point sets include corner clusters, flat simplices and '
+    'uniform balls at a scale where volumes are below the smallest double.',
     'exhaustive in operation order per point set, sampled over point sets; GaussianMixture behaviour as installed',
     'DESIGN.md#C13')
 
@@ -77,7 +78,8 @@ add('C09', 'exploration', 'differential monitor: original bound is the reference
     'Bounds of every class and option set, in states reached by split/trim/sample histories, are written, read back '
     'and compared call by call (contains on probes, log_v, sample streams across refills); update() is compared with '
     'a fresh write() and read back again; unions with more than ten members, unsorted periodic index sets and bounds sampled '
-    'through NautilusPool are included.', 'bit-exact equality; split() on a read-back union not part of the property',
+    'through NautilusPool are included; read(rng=None) after write and after update must restore membership, volume and the saved '
+    'sampling progress (counters, cached rows) of every part.', 'bit-exact equality; split() on a read-back union not part of the property',
     'DESIGN.md#C09')
 
 add('C10', 'exploration', 'offline checker over the boundary event log (run / add_samples / evaluate_likelihood / likelihood / pool.map) with a virtual clock',
@@ -118,7 +120,8 @@ add('C05', 'exploration', 'differential monitor: uninterrupted seeded run vs the
     'virtual-clock timeouts, and toggle histories resumed after every step must all end bit-identical to the '
     'reference; no unit point may be evaluated on both sides of a cut. Variants: a run started with resume=False over the '
     'finished checkpoint of an earlier run, a one-update-per-bound configuration (empty shells removed), and a deep '
-    'configuration in which every bound refills its proposal cache after the last full write.',
+    'configuration in which every bound refills its proposal cache after the last full write (also with a sampler pool), and a '
+    'sixteen-mode landscape whose unions hold more than ten ellipsoids.',
     'exhaustive over batch boundaries per run, sampled over configurations; relies on determinism (C11)', 'DESIGN.md#C05')
 
 add('C06', 'fault_enumeration', 'syscall-level fault enumeration on the real process: strace census of every call on the checkpoint path + SIGKILL injection at each, leftover file compared with completed states, continuation under invariant hooks',
@@ -135,7 +138,9 @@ add('C11', 'exploration', 'pairwise differential monitor (SHA-256 of results) be
     'whose workers sleep point-dependent times (completion order logged; permuted batches counted), verbose output, '
     'a checkpoint file, a run observed between batches by random read-only accessor calls (also in a one-update-per-bound '
     'configuration with empty shells), and repeated sampler-pool runs; pools of 3 workers with batch sizes they do not divide; a '
-    'variant that raises or exhausts a budget the base run did not need is a difference.',
+    'variant that raises or exhausts a budget the base run did not need is a difference; sampler pool with a checkpoint file '
+    'against sampler pool without; an invariant hook digests generator states, proposal caches, draw counters and stored arrays '
+    'before and after every write()/write_shell_update(): a checkpoint write must not change them.',
     'threads pinned to 1; scalar/vectorised compared only where both forms are verified bit-identical', 'DESIGN.md#C11')
 
 
